@@ -10,8 +10,13 @@ var commonTrusted = []string{
 	"frozen gate tables under /verif/tables/gates (generated from the tree, confirmed by reading)",
 }
 
+var extraRules = map[string]func(c *Ctx){}
+
 func gateRun(prop string) func(c *Ctx) {
 	return func(c *Ctx) {
+		if f := extraRules[prop]; f != nil {
+			defer f(c)
+		}
 		specs := GateSpecs(c, prop)
 		if len(specs) == 0 {
 			c.R.Fatalf("no gate rule instances for %s", prop)
@@ -52,4 +57,14 @@ func init() {
 		EFXReadOnlyTargets(c, "default", an)
 		c.R.Extra["efx_stats"] = an.Stats
 	}})
+}
+
+func init() {
+	stale := func(pk ...string) func(c *Ctx) { return func(c *Ctx) { StaleResults(c, "default", pk) } }
+	extraRules["C15"] = stale("shuffle", "proof")
+	extraRules["C14"] = stale("proof")
+	extraRules["C13"] = stale("share/pvss", "proof/dleq")
+	extraRules["C08"] = stale("sign/schnorr", "sign/eddsa", "sign/anon")
+	extraRules["C09"] = stale("sign/bls", "sign/tbls", "sign/bdn", "sign/cosi")
+	extraRules["C07"] = stale("share")
 }
